@@ -41,6 +41,10 @@ fn fmt_item<P: std::fmt::Debug>(r: &zlink_core::Result<zlink_core::reply::Result
 }
 
 fn oracle<'a, P: Deserialize<'a> + std::fmt::Debug>(seg: &'a [u8]) -> String {
+    // a JSON document is UTF-8 text (RFC 8259 8.1)
+    if std::str::from_utf8(seg).is_err() {
+        return "err:json".into();
+    }
     if let Ok(e) = serde_json::from_slice::<zlink_core::varlink_service::Error>(seg) {
         return format!("vs:{}", digest(&format!("{:?}", e)));
     }
